@@ -1331,6 +1331,10 @@ _OPERATOR_CMP = {"is_": ast.Is, "is_not": ast.IsNot, "eq": ast.Eq, "ne": ast.Not
 class _ExprNorm(ast.NodeTransformer):
     def visit_Compare(self, node):
         self.generic_visit(node)
+        # None is not x  ->  x is not None      (symmetric tests are written with the constant on the right)
+        if len(node.ops) == 1 and isinstance(node.ops[0], (ast.Is, ast.IsNot)) and isinstance(node.left, ast.Constant) and node.left.value is None \
+                and not isinstance(node.comparators[0], ast.Constant):
+            node = ast.copy_location(ast.Compare(left=node.comparators[0], ops=node.ops, comparators=[node.left]), node)
         # next((e for .. if C), None) is not None  ->  any(C for ..)     (e never None: the default is returned iff nothing passes the filter)
         if len(node.ops) == 1 and isinstance(node.ops[0], (ast.Is, ast.IsNot)) and isinstance(node.comparators[0], ast.Constant) and node.comparators[0].value is None:
             c = node.left
@@ -3090,6 +3094,10 @@ class Canon:
             elif isinstance(v, ast.Call) and u(v.func).split(".")[-1] in ("attrgetter", "itemgetter", "methodcaller") and v.args and not v.keywords \
                     and all(isinstance(a_, ast.Constant) for a_ in v.args):
                 consts[name] = v            # a named accessor: as good as the attribute / item / method it names
+            elif isinstance(v, ast.Call) and u(v.func).split(".")[-1] == "partial" and v.args and not any(isinstance(a_, ast.Starred) for a_ in v.args) \
+                    and all(k_.arg is not None for k_ in v.keywords) and all(isinstance(a_, ast.Constant) or (
+                        norm._attr_chain(a_) is not None and norm._attr_chain(a_)[0] in module.imports) for a_ in list(v.args) + [k_.value for k_ in v.keywords]):
+                consts[name] = v            # a library function with some arguments filled in by constants
             else:
                 k_ = _const_int(v, module)
                 if k_ is not None:
